@@ -86,7 +86,7 @@ type World struct {
 	st    *Stats
 	conns []*connState
 	pool  map[int]sut.Driver
-	pused map[int]bool
+	owner map[int]*connState
 	recA  sut.Rec
 	recB  sut.Rec
 	v     *Violation
@@ -100,7 +100,7 @@ func Exec(sc *Scenario, mon Monitors, st *Stats) (v *Violation) {
 	if len(sc.Tasks) > 0 {
 		return ExecTasks(sc, st)
 	}
-	w := &World{sc: sc, mon: mon, st: st, pool: map[int]sut.Driver{}, pused: map[int]bool{}}
+	w := &World{sc: sc, mon: mon, st: st, pool: map[int]sut.Driver{}, owner: map[int]*connState{}}
 	defer func() {
 		// a panic outside a guarded library call is a harness bug; surface it loudly
 		if r := recover(); r != nil {
@@ -242,6 +242,16 @@ func (w *World) acquire(cs *connState) sut.Driver {
 	if c.Obj < 0 {
 		return sut.New(c.Cfg)
 	}
+	// one user at a time: if another connection still holds this object it
+	// has been abandoned by its handler (connection torn down)
+	if o, held := w.owner[c.Obj]; held && o != cs && o.drv != nil {
+		o.closed = true
+		o.drv = nil
+		if w.st != nil {
+			w.st.fault("abandon-mid-unit")
+		}
+	}
+	w.owner[c.Obj] = cs
 	d, ok := w.pool[c.Obj]
 	if !ok {
 		d = sut.New(c.Cfg)
@@ -627,7 +637,9 @@ func (w *World) finish() {
 		var order []int
 		for _, cs := range w.conns {
 			for i := range cs.results {
-				if cs.results[i].Sig != nil {
+				// group members are the messages the peers sent as variants, not
+				// whatever a skipped body happens to parse as afterwards
+				if cs.results[i].Sig != nil && cs.results[i].MsgIdx >= 0 {
 					g := cs.c.Group
 					if _, ok := groups[g]; !ok {
 						order = append(order, g)
